@@ -3,6 +3,7 @@ package main
 import (
 	"encoding/json"
 	"fmt"
+	"go/ast"
 	"os"
 	"os/exec"
 	"path/filepath"
@@ -10,6 +11,7 @@ import (
 	"sort"
 	"strings"
 
+	"verif/checker/internal/dtab"
 	"verif/checker/internal/load"
 	"verif/checker/internal/report"
 	"verif/checker/internal/rules"
@@ -31,6 +33,8 @@ func main() {
 		cmdDump(os.Args[2:])
 	case "sweep":
 		cmdSweep(os.Args[2:])
+	case "machine":
+		cmdMachine(os.Args[2:])
 	case "terms":
 		cmdTerms(os.Args[2:])
 	case "check":
@@ -369,4 +373,51 @@ func cmdReplay(args []string) int {
 	}
 	fmt.Println("not reproduced on the current tree (the obligation is discharged or the construct is gone)")
 	return 0
+}
+
+// cmdMachine prints the guarded commands of the closures of a method (developer aid).
+func cmdMachine(args []string) {
+	if len(args) < 3 {
+		usage()
+	}
+	p, err := load.Load("/repo", false)
+	if err != nil {
+		fmt.Fprintln(os.Stderr, err)
+		os.Exit(2)
+	}
+	fi := p.Method(args[0], args[1], args[2])
+	if fi == nil {
+		fmt.Fprintln(os.Stderr, "not found")
+		os.Exit(2)
+	}
+	ast.Inspect(fi.Decl.Body, func(n ast.Node) bool {
+		fl, ok := n.(*ast.FuncLit)
+		if !ok {
+			return true
+		}
+		m := dtab.FromFuncLit(fi.Pkg.TypesInfo, fl)
+		fmt.Printf("closure at %s params %v state %v reads %v unsupported %v\n", p.Pos(fl.Pos()), m.Params, m.State, m.Reads, m.Unsupported)
+		for i, pa := range m.Paths {
+			var cs []string
+			for _, c := range pa.Conds {
+				cs = append(cs, sym.String(c))
+			}
+			fmt.Printf("  path %d: if %s\n", i, strings.Join(cs, " && "))
+			var ks []string
+			for k := range pa.Updates {
+				ks = append(ks, k)
+			}
+			sort.Strings(ks)
+			for _, k := range ks {
+				fmt.Printf("      %s := %s\n", k, sym.String(pa.Updates[k]))
+			}
+			for _, r := range pa.Ret {
+				fmt.Printf("      return %s\n", sym.String(r))
+			}
+			for _, e := range pa.Effects {
+				fmt.Printf("      effect %s\n", e)
+			}
+		}
+		return false
+	})
 }
